@@ -526,8 +526,17 @@ def convert_error_default(m, e, ci):
     # Result<_, anyhow::Error> destination: wrap whatever it is
     if 'anyhow::Error' in dty and not (isinstance(e, Opaque) and e.what == 'anyhow'):
         return Opaque('anyhow', e)
+    if 'RpcError' in dty and 'cln_rpc' not in dty and not (isinstance(e, Adt) and last_seg(e.ty) == 'RpcError' and e.variant in ('Rpc', 'General')):
+        # crate::rpc::RpcError: the crate's own `impl From<..> for RpcError` bodies decide (src/rpc.rs); the one whose
+        # parameter type fits the error value is run
+        want = 'anyhow' if (isinstance(e, Opaque) and e.what == 'anyhow') else 'cln_rpc'
+        for b in m.prog.prog.bodies:
+            if b.kind == 'fn' and b.name and b.name.endswith('::from') and 'src/rpc.rs' in b.name:
+                b.parse()
+                if len(b.params) == 1 and want in b.params[0][1] and 'RpcError' in (b.ret or ''):
+                    return m.call_body(b, [e])
     if 'RpcError' in dty and 'cln_rpc' not in dty:
-        # crate::rpc::RpcError: From<anyhow::Error> -> General, From<cln_rpc::RpcError> -> Rpc
+        # (fallback contract) crate::rpc::RpcError: From<anyhow::Error> -> General, From<cln_rpc::RpcError> -> Rpc
         if isinstance(e, Adt) and last_seg(e.ty) == 'RpcError' and e.variant in ('Rpc', 'General'):
             return e
         if isinstance(e, Opaque) and e.what == 'anyhow':
